@@ -106,7 +106,10 @@ Ext(O)       == Get(O, ExtNamePath)
 \* I7: the reserved keys of the key universe used by MCFieldPartition (a key that is not listed is not reserved)
 ReservedKeys == {"kubernetes.io/arch", "app.kubernetes.io/name", "topology.kubernetes.io/zone",
                  "k8s.io/x", "sigs.k8s.io/y", "internal.k8s.io/z",
-                 "kubectl.kubernetes.io/last-applied-configuration"}
+                 "kubectl.kubernetes.io/last-applied-configuration",
+                 \* subdomains of more than one level (added after the seeded change C07-m5 - a filter that strips one
+                 \* subdomain level only - was missed)
+                 "node.alpha.kubernetes.io/ttl", "service.beta.kubernetes.io/lb", "internal.config.k8s.io/w"}
 Reserved(k)  == k \in ReservedKeys
 \* keys that are NOT reserved by I7 but end in a reserved domain name textually: "notkubernetes.io" is not a
 \* subdomain of kubernetes.io, and a key without "/" has no prefix at all. Judged by a formula of their own
